@@ -589,6 +589,38 @@ def r6_delegation(rep, facts):
         rep.check(R, label, 'as_default' in names and bld in paths, f'{bld}::new(..).as_default()', f'`{label}` no longer goes through {bld}::as_default (calls {sorted(names)})', facts.loc(b))
 
 
+def r6b_display_repr(rep, facts):
+    R = rep.rule('C10/R6b', 'the text shown for a value or key is its stored spelling when the text is at hand, and the default style otherwise — never nothing: '
+                 'Formatted::display_repr and Key::display_repr evaluated on the four states of the stored representation (none; text kept; only a span into a '
+                 'source that is not at hand, as in an ImDocument; the empty text)', floor=6)
+    from .den import RecInterp, EvalPanic
+    RS = 'toml_edit::raw_string::RawStringInner::'
+    SOME_, NONE_ = 'core::option::Option::Some', 'core::option::Option::None'
+
+    def repr_of(inner):
+        return ('struct', 'toml_edit::repr::Repr', {'raw_value': ('struct', 'toml_edit::raw_string::RawString', {'0': inner})})
+    text = lambda t: ('ctor', RS + 'Explicit', (('struct', 'toml_edit::internal_string::InternalString', {'0': t}),))
+    states = (('no representation', ('ctor', NONE_), 'DEFAULT'),
+              ('the written text', ('ctor', SOME_, (repr_of(text('WRITTEN')),)), 'WRITTEN'),
+              ('a span only', ('ctor', SOME_, (repr_of(('ctor', RS + 'Spanned', (('range', 3, 9),))),)), 'DEFAULT'))
+    for d in [x for x in sorted(facts.bodies) if x.endswith('::display_repr') and ('Formatted' in x or x.endswith('key::Key::display_repr'))]:
+        b = facts.body(d)
+        label = d.split('::')[-2].split('<')[0] if 'Formatted' not in d else 'Formatted'
+        for name, stored, want in states:
+            it = RecInterp(Evaluator(facts), set(), stubs={'default_repr': repr_of(text('DEFAULT'))})
+            try:
+                r = it.apply_fn(b, [('struct', 'node', {'repr': stored, 'value': 'v', 'key': 'k'})])
+            except EvalPanic as ex:
+                rep.bad(R, f'{label}|{name}', f'`{d}` panics for a node holding {name}: {ex}', facts.loc(b))
+                continue
+            except Unanalysable as ex:
+                rep.incomplete(R, f'{label}|{name}', f'cannot evaluate `{d}`: {ex}', facts.loc(b))
+                continue
+            got = r[2][0] if isinstance(r, tuple) and len(r) == 3 and r[0] == 'ctor' and 'Cow::' in r[1] else r
+            rep.check(R, f'{label}|{name}', got == want, f'{got!r}', f'`{d}` shows {got!r} for a node holding {name}, expected the {"stored spelling" if want == "WRITTEN" else "default style"}: '
+                      f'the value is printed as another (or no) token', facts.loc(b))
+
+
 def r7_run_metric(rep, facts):
     R = rep.rule('C10/R7', 'the quote-run metrics are running maxima: tabulating one iteration of ValueMetrics::calculate over every byte and '
                  'representative (current run, maximum so far) pairs, the run counter is run+1 (saturating) on the quote and 0 otherwise, and the '
@@ -677,6 +709,7 @@ def rules(rep, facts):
         _shape(rep, r1_inverse, 'C10/R1', facts, g, a)
         r2_unescaped(rep, facts, g, a)
         r6_delegation(rep, facts)
+        r6b_display_repr(rep, facts)
         # the reader side of every style: the string parsers accept exactly the ABNF string rules (shared with C01/R10)
         from .rules_c01 import r10_regular_language
         r10_regular_language(rep, g, a, only_prefix='strings::', rid='C10/R8')
